@@ -245,11 +245,8 @@ impl<'a, C: KeyColl> KeyRun<'a, C> {
             CallErr::Injected => unreachable!("injected panics are handled by the caller"),
             CallErr::Budget => {
                 let msg = format!("{}: callback budget exceeded (non-terminating loop over user code?) in {}", C::NAME, what);
-                if self.rc.obs(10) {
-                    self.out.fail(10, "callback-budget", i, msg);
-                } else {
-                    self.out.blocked = Some(msg);
-                }
+                let pn = if self.rc.obs(10) { 10 } else { self.rc.observe.trailing_zeros() };
+                self.out.fail(pn, "callback-budget", i, msg);
             }
             CallErr::Panic(m) => {
                 let msg = format!("{}: panic in {}: {}", C::NAME, what, m);
@@ -258,7 +255,10 @@ impl<'a, C: KeyColl> KeyRun<'a, C> {
                 } else if let Some(pn) = observed_by.iter().find(|n| self.rc.obs(**n)) {
                     self.out.fail(*pn, "panic-in-observed-op", i, msg);
                 } else {
-                    self.out.blocked = Some(msg);
+                    // the in-contract history cannot be completed: a counterexample to any property
+                    // that quantifies over all histories (and, of course, to C10)
+                    let pn = self.rc.observe.trailing_zeros();
+                    self.out.fail(pn, "history-aborted", i, format!("{} (the in-contract history cannot be completed, so what the property promises for it is not delivered)", msg));
                 }
             }
         }
@@ -282,8 +282,13 @@ impl<'a, C: KeyColl> KeyRun<'a, C> {
                 // structure already broken before this op: report under C02 if observed
                 if self.rc.obs(2) {
                     self.out.fail(2, "links", i, format!("{}: {}", C::NAME, m));
+                } else if self.rc.obs(11) {
+                    self.out.fail(11, "links", i, format!("{}: {}", C::NAME, m));
                 } else {
-                    self.out.blocked = Some(format!("structure unreadable: {}", m));
+                    // the links are inconsistent: structural classification is off from here on,
+                    // the functional oracles keep judging
+                    self.snap_on = false;
+                    self.out.class("structure_unreadable");
                 }
                 None
             }
@@ -313,7 +318,8 @@ impl<'a, C: KeyColl> KeyRun<'a, C> {
                     if self.rc.obs(11) {
                         self.out.fail(11, "links", i, format!("{}: after op #{}: {}", C::NAME, i, m));
                     } else {
-                        self.out.blocked = Some(format!("structure unreadable: {}", m));
+                        self.snap_on = false;
+                        self.out.class("structure_unreadable");
                     }
                     return None;
                 }
@@ -697,7 +703,7 @@ impl<'a, C: KeyColl> KeyRun<'a, C> {
             let k2 = XKey::new(k, exp, serial);
             let (r, _, _) = lib_call(None, u64::MAX, false, || tw.insert(k2, serial as u64, t));
             if r.is_err() {
-                self.out.blocked = Some("twin insert failed".into());
+                self.out.fail(12, "twin-panicked", i, "a fresh instance driven by the suffix panicked (twin insert failed)".into());
                 return Step::Stop;
             }
         }
@@ -811,7 +817,7 @@ impl<'a, C: KeyColl> KeyRun<'a, C> {
                     }
                 }
                 Err(_) => {
-                    self.out.blocked = Some("twin query failed".into());
+                    self.out.fail(12, "twin-panicked", i, "a fresh instance driven by the suffix panicked (twin query failed)".into());
                     return Step::Stop;
                 }
             }
@@ -922,7 +928,7 @@ impl<'a, C: KeyColl> KeyRun<'a, C> {
                     }
                 }
                 Err(_) => {
-                    self.out.blocked = Some("twin get failed".into());
+                    self.out.fail(12, "twin-panicked", i, "a fresh instance driven by the suffix panicked (twin get failed)".into());
                     return Step::Stop;
                 }
             }
@@ -1077,6 +1083,9 @@ impl<'a, C: KeyColl> KeyRun<'a, C> {
             if stored_n >= 100 {
                 self.out.class("export_cap_ge_100");
             }
+            if stored_n >= 12 {
+                self.out.class("export_cap_ge_12");
+            }
             if got.capacity() > bound {
                 self.out.fail(19, "export-capacity", i, format!("{}: into_ordered_vec returned a vector of capacity {} for {} stored entries ({} exported, hint {}); bound {}", C::NAME, got.capacity(), stored_n, got.len(), self.cap, bound));
                 return Step::Stop;
@@ -1096,7 +1105,7 @@ impl<'a, C: KeyColl> KeyRun<'a, C> {
                     }
                 }
                 Err(_) => {
-                    self.out.blocked = Some("twin export failed".into());
+                    self.out.fail(12, "twin-panicked", i, "a fresh instance driven by the suffix panicked (twin export failed)".into());
                 }
             }
         }
